@@ -155,7 +155,8 @@ def model(draw, flavour=None, max_blocks=10):
     if au: p['diff0'] = draw(opt(pos(1e-8, 1e-3)))
     if dt < 0:
         n = int(-dt)
-        nts = draw(I(8 * (n - 1) + 1, 8 * n))
+        # the announced records may be only partly used (DELTEN = -2 with three DLT values: the second record is blank)
+        nts = draw(I(8 * (n - 1) + 1, 8 * n)) if draw(I(0, 3)) else draw(I(1, 8 * n))
         p['timestep'] = [draw(pos(1.0, 1e9)) for _ in range(nts)]
     else:
         p['timestep'] = [dt]
